@@ -103,6 +103,19 @@ static bool ben_parse(const std::string& s, size_t& pos, const std::string& pref
   return false;
 }
 
+// The property constrains WHICH 6-byte entries a PEX message / m_ut_pex_list holds, not their order:
+// entries are printed as a set, in one canonical order (address bytes 3,2,1,0 then the port bytes).
+static std::string canon_entries(const std::string& raw) {
+  if (raw.size() % 6 != 0) return raw;   // partial entries are shown as they are (the oracle reports them)
+  std::vector<std::string> v;
+  for (size_t k = 0; k + 6 <= raw.size(); k += 6) v.push_back(raw.substr(k, 6));
+  auto key = [](const std::string& e) { return std::string() + e[3] + e[2] + e[1] + e[0] + e[4] + e[5]; };
+  std::sort(v.begin(), v.end(), [&](const std::string& a, const std::string& b) { return key(a) < key(b); });
+  std::string o;
+  for (auto& e : v) o += e;
+  return o;
+}
+
 static std::string show_ext(int idx, const WireMsg& m, uint16_t listen_port) {
   std::string o = "E" + std::to_string(idx) + "(";
   if (m.body.empty()) return o + "EMPTY)";
@@ -114,7 +127,7 @@ static std::string show_ext(int idx, const WireMsg& m, uint16_t listen_port) {
   for (auto& it : items) {
     if (it.key == "v" || it.key == "e") continue;
     if (it.key == "p") { o += std::string(",p=") + (it.val == std::to_string(listen_port) ? "L" : it.val); continue; }
-    o += "," + it.key + "=" + (it.is_int ? it.val : hex(it.val));
+    o += "," + it.key + "=" + (it.is_int ? it.val : hex((it.key == "added" || it.key == "dropped") ? canon_entries(it.val) : it.val));
   }
   std::string pay = rest.substr(pos);
   o += ",pay=" + std::to_string(pay.size()) + ":" + (pay.empty() ? "-" : md5hex(pay)) + ")";
@@ -176,6 +189,7 @@ static std::string snapshot(Session& S, torrent::Download dl, Torrent* /*unused*
   auto* main = dl.ptr()->main();
   std::string list;
   for (auto& a : main->m_ut_pex_list) list += std::string((const char*)&a, 6);
+  list = canon_entries(list);
   o += "D[sp=" + std::to_string(main->info()->size_pex()) + " pa=" + (main->info()->is_pex_active() ? "1" : "0") + " list=" + hex(list) + "]";
   return o;
 }
@@ -433,8 +447,9 @@ struct FakePeer : public torrent::PeerConnectionBase {
   void event_write() override {}
 };
 
-static std::string show_entries(const char* p, size_t n) {
-  std::string o;
+static std::string show_entries(const char* p0, size_t n) {
+  std::string o, canon = canon_entries(std::string(p0, n));
+  const char* p = canon.data();
   for (size_t k = 0; k + 6 <= n; k += 6) {
     const unsigned char* e = (const unsigned char*)p + k;
     unsigned idx = e[3] * 256u + e[2];
@@ -474,7 +489,8 @@ static std::string run_unit_case(Session& S, const std::string& line) {
   dl.start(0);
   S.step();
   auto* main = dl.ptr()->main();
-  auto* vec = (std::vector<torrent::Peer*>*)dl.connection_list();
+  // the private base container, whatever its type is (ROBUSTNESS rule 2): push_back / back / pop_back / begin / end only
+  auto* vec = (torrent::ConnectionList::base_type*)dl.connection_list();
   std::map<unsigned, FakePeer*> fakes;
   static torrent::ProtocolExtension default_ext = torrent::ProtocolExtension::make_default();
   std::string out;
@@ -503,7 +519,7 @@ static std::string run_unit_case(Session& S, const std::string& line) {
           } else {
             auto it = fakes.find(k);
             if (it == fakes.end()) continue;
-            auto pos = std::find(vec->begin(), vec->end(), static_cast<torrent::Peer*>(it->second));
+            auto pos = std::find(std::begin(*vec), std::end(*vec), static_cast<torrent::Peer*>(it->second));
             if (pos != vec->end()) { *pos = vec->back(); vec->pop_back(); }
             fakes.erase(it);
           }
@@ -524,7 +540,7 @@ static std::string run_unit_case(Session& S, const std::string& line) {
   }
   // the fake connections never reach the library's own teardown
   for (auto& f : fakes) {
-    auto pos = std::find(vec->begin(), vec->end(), static_cast<torrent::Peer*>(f.second));
+    auto pos = std::find(std::begin(*vec), std::end(*vec), static_cast<torrent::Peer*>(f.second));
     if (pos != vec->end()) { *pos = vec->back(); vec->pop_back(); }
   }
   fakes.clear();   // (objects intentionally leaked: their destructor expects a fully initialised connection)
@@ -538,13 +554,91 @@ static std::string run_unit_case(Session& S, const std::string& line) {
   return out;
 }
 
-int main() {
+// ---- the order policy of SocketAddressCompact_less, probed on the compiled code (ROBUSTNESS rule 4):
+// two fake peers whose raw (little-endian read) and numeric orders differ, once by address, once by port.
+static std::string probe_order(Session& S) {
+  std::string name = "c20probe";
+  std::string info = "d6:lengthi40000e4:name" + std::to_string(name.size()) + ":" + name + "12:piece lengthi16384e6:pieces60:" + std::string(60, 'p') + "e";
+  torrent::Download dl = S.add_raw("d4:info" + info + "e");
+  std::string root = S.scratch() + "/probe";
+  fs::create_directories(root);
+  dl.file_list()->set_root_dir(root);
+  dl.open(0);
+  dl.hash_check(false);
+  if (!S.settle([dl]() { return dl.is_hash_checked(); }, 30000)) return "ord=??";
+  dl.start(0);
+  S.step();
+  auto* main = dl.ptr()->main();
+  auto* vec = (torrent::ConnectionList::base_type*)dl.connection_list();
+  static torrent::ProtocolExtension default_ext = torrent::ProtocolExtension::make_default();
+  auto add = [&](const char* ip, uint16_t port) {
+    auto* p = new FakePeer;
+    sockaddr_in sin{};
+    sin.sin_family = AF_INET;
+    sin.sin_port = htons(50000);
+    inet_pton(AF_INET, ip, &sin.sin_addr);
+    p->m_peerInfo = new torrent::PeerInfo((sockaddr*)&sin);
+    p->m_peerInfo->set_listen_port(port);
+    p->m_download = main;
+    p->m_extensions = &default_ext;
+    vec->push_back(p);
+  };
+  auto first = [&]() {
+    main->do_peer_exchange();
+    std::string e;
+    for (auto& a : main->m_ut_pex_list) { e = std::string((const char*)&a, 6); break; }
+    return e;
+  };
+  std::string r = "ord=";
+  add("10.0.1.0", 5);   // raw little-endian: smaller; numeric: larger
+  add("10.0.0.1", 5);
+  std::string e = first();
+  r += (e.size() == 6 && (unsigned char)e[2] == 1) ? "0" : "1";
+  vec->clear();
+  main->do_peer_exchange();
+  add("10.0.9.9", 1);   // port 1: raw (bytes 00 01 read little-endian = 256) larger; numeric smaller
+  add("10.0.9.8", 256);
+  vec->clear();
+  add("10.0.9.9", 1);
+  add("10.0.9.9", 256);
+  e = first();
+  r += (e.size() == 6 && (unsigned char)e[4] == 1) ? "0" : "1";   // first entry is port 256 (bytes 01 00) under the raw order
+  vec->clear();
+  dl.stop(torrent::Download::stop_skip_tracker);
+  dl.close(0);
+  S.step();
+  torrent::download_remove(dl);
+  S.step();
+  return r;
+}
+
+// ---- per-case watchdog (ROBUSTNESS rule 5): a case that does not finish is one HANG result, the run goes on
+static void on_alarm(int) {
+  static const char msg[] = "HANG\n";
+  ssize_t r = write(1, msg, sizeof msg - 1);
+  (void)r;
+  _exit(0);
+}
+
+// ---- constants read from the COMPILED code (ROBUSTNESS rule 3); the glue compares them with ParamsGen.v
+static void print_params() {
+  printf("c20_metadata_piece_shift=%zu\n", (size_t)torrent::ProtocolExtension::metadata_piece_shift);
+  printf("c20_max_pex_list=%u\n", (unsigned)torrent::DownloadInfo::max_size_pex_list());
+  torrent::DownloadInfo di;
+  printf("c20_max_size_pex=%u\n", (unsigned)di.max_size_pex());
+}
+
+int main(int argc, char** argv) {
   std_setup();
+  if (argc > 1 && std::string(argv[1]) == "--params") { print_params(); return 0; }
+  signal(SIGALRM, on_alarm);
   Session S;
+  if (argc > 1 && std::string(argv[1]) == "--probe-order") { alarm(60); printf("%s\n", probe_order(S).c_str()); fflush(stdout); _exit(0); }
   std::string line;
   while (std::getline(std::cin, line)) {
     if (line.empty()) { std::cout << "\n"; continue; }
     std::string r;
+    alarm(30);
     try {
       r = line.compare(0, 2, "U ") == 0 ? run_unit_case(S, line) : run_case(S, line);
     } catch (torrent::internal_error& e) {
@@ -554,6 +648,7 @@ int main() {
     } catch (std::exception& e) {
       r = std::string("ERR:exception ") + e.what();
     }
+    alarm(0);
     std::cout << r << "\n";
   }
   return 0;
